@@ -41,6 +41,11 @@ func (gt *GoTo) Hierarchy() []slip.Symbol {
 	return []slip.Symbol{slip.TrueSymbol}
 }
 
+// Transfer identifies the object as a transfer of control so that a function
+// body that is left by a go passes the object on to the enclosing tagbody.
+func (gt *GoTo) Transfer() {
+}
+
 // Eval the object.
 func (gt *GoTo) Eval(s *slip.Scope, depth int) slip.Object {
 	return gt
